@@ -1889,6 +1889,48 @@ def _letters(ctx, hfn):
 
 row('C14', PT, 'type-letters', _letters)
 
+def _lossy_decode_progress(ctx, hfn):
+    """the replacement loop for invalid UTF-8 ends when the error has no length (the input stops inside a character): the
+    `None` of `error_len()` leads out of the loop -- consumed as a number (`unwrap_or(0)`) the remaining slice never gets
+    shorter and the loop never ends"""
+    sites = []
+
+    def exits(e):
+        hit = []
+        H.walk(e if isinstance(e, dict) else {}, lambda x, a: hit.append(x) if x.get('k') in ('ret', 'break') else None)
+        e0 = strip(e)
+        return bool(hit) or (isinstance(e0, dict) and e0.get('k') in ('ret', 'break'))
+
+    def v(n, anc):
+        if n.get('k') == 'mcall' and n.get('name') == 'error_len':
+            par = anc[-1] if anc else {}
+            gp = anc[-2] if len(anc) > 1 else {}
+            ok = False
+            if par.get('k') == 'let' and gp.get('k') == 'if' and 'Some' in repr(par.get('pat'))[:300]:
+                ok = 'e' in gp and exits(gp['e'])
+            elif par.get('k') in ('slet',) and par.get('init') is n and 'els' in par:
+                ok = exits(par['els'])
+            elif par.get('k') == 'match' and par.get('scrut') is n:
+                none_arms = [a for a in par['arms'] if 'None' in repr(a['pat'])[:300] or a['pat'].get('k') == 'wild']
+                ok = bool(none_arms) and all(exits(a['body']) for a in none_arms)
+            sites.append((n, ok))
+    for dpt in (0, 1, 2):
+        vh = hfn if dpt == 0 else H.inlined_fn(ctx.facts, hfn, depth=dpt)
+        sites.clear()
+        H.walk(vh['body'], v)
+        if sites:
+            break
+    if not sites:
+        return True, 'not determined: no `error_len()` in the decoder (no hand-written replacement loop)', None
+    bad = [n for n, ok in sites if not ok]
+    ok = not bad
+    return ok, '' if ok else ('the case "the error has no length" (`error_len()` is None: the input ends inside a character) does not '
+                              'leave the replacement loop: the remaining input never gets shorter'), bad[0].get('ln') if bad else None
+
+
+row('C01', 'reader::encoding::Encoding::decode', 'lossy-decode-ends-at-truncated-character', _lossy_decode_progress)
+
+
 def _no_loop_or_index_arithmetic(ctx, hfn):
     """the segment index is the result of the search as it comes (`Ok(i) | Err(i) => i`): no loop moving it on and no
     arithmetic on it -- stepping over equal lengths makes a distance inside the segment before a duplicated vertex land on
